@@ -5,3 +5,4 @@ import Adc.Wick
 import Adc.Indices
 import Adc.Unitary
 import Adc.Symmetry
+import Adc.Contraction
